@@ -3,10 +3,11 @@
     Model: MM16/Verify.v (reference Metamath verifier over parsed terms), MM16/Convert.v ([img]),
     MM16/Translate.v ([exec_proof] + module skeleton), MM16/Fragment.v ([in_fragment]); the checker is
     ML/Machine.v under [guards_sound].  Only statements live here; proofs are in MM16/*.v. *)
-From Coq Require Import NArith List Bool.
+From Coq Require Import ZArith NArith List Bool.
 From Pi2 Require Import ML.Syntax ML.Subst ML.Machine
   MM16.Verify MM16.Convert MM16.Instr MM16.Translate MM16.Fragment
-  MM16.InstrFacts MM16.SimFacts MM16.Sim MM16.Step MM16.Rules MM16.Compose MM16.Main MM16.Compress.
+  MM16.InstrFacts MM16.SimFacts MM16.Sim MM16.Step MM16.Rules MM16.Compose MM16.Main MM16.Compress
+  MM16.GenPrims MM16.GenRun Gen.MMTranslate MM16.GenMMTranslateAgree MM16.SourceTranslate.
 Import ListNotations.
 Open Scope N_scope.
 
@@ -190,4 +191,56 @@ Example C16_two_lemmas_ok :
   match translate d_two (LOther 3) with
   | Some (g, c, p) => match verify guards_sound g c p with Some _ => true | None => false end
   | None => false end = true.
+Proof. vm_compute. reflexivity. Qed.
+
+(** ** 6. tie by translation: the same statements about the functions GENERATED from the current Python
+    source (coq/Gen/MMTranslate.v, rewritten on every run by translators/mm_translate.py from
+    translate.exec_proof / get_delta / do_mp / convert_to_implication / main and converter.split_proof).
+    [R m t] runs generated code on the model's translator state; vocabulary: MM16/GenPrims.v. *)
+
+(** one iteration of [for lemma in exported_proof.applied_lemmas]: whenever the model's step succeeds, the
+    generated step succeeds with the same emitted instructions, tracked state and Z-memory *)
+Theorem C16_source_step_agrees cv axioms labels applied t n t' :
+  (forall a, In a (exported (cv_d cv)) -> existsb (pat_eqb (axiom_pat (cv_d cv) (cv_sid cv) a)) axioms = true) ->
+  (forall a, NoDup (map (mvid (cv_d cv)) (metavars_in_order (cv_d cv) a))) ->
+  tstep (cv_d cv) (cv_sid cv) labels n t = Some t' ->
+  R (gen_exec_proof_step cv axioms (mkPf (zenum 1 labels) applied) (py_len (zenum 1 labels)) (heap t) (Z.of_N n)) t
+  = Some (heap t', mkT (mst t') (heap t) (out t')).
+Proof. intros HA HN H. exact (gen_exec_proof_step_agree cv axioms HA HN labels applied t n t' H). Qed.
+
+(** converter.split_proof numbers the mandatory floating hypotheses in database order *)
+Theorem C16_source_split_proof_labels cv a t :
+  R (gen_split_proof_labels cv a) t = Some (zenum 1 (float_labels_for (cv_d cv) (svars (a_stmt a))), t).
+Proof. exact (gen_split_proof_labels_agree cv a t). Qed.
+
+(** translate.main hands the skeleton the exported axioms (rules as implication chains) and the target's claim only *)
+Theorem C16_source_extracted cv target a pl steps t :
+  (forall b, In b (exported (cv_d cv)) -> exists i, find_item (cv_d cv) (a_label b) = Some (i, IAx b)) ->
+  find_proof (cv_d cv) target = Some (a, pl, steps) ->
+  R (gen_extracted cv target) t
+  = Some ((map (axiom_pat (cv_d cv) (cv_sid cv)) (exported (cv_d cv)), [lemma_pat (cv_d cv) (cv_sid cv) a]), t).
+Proof. intros HF F. exact (gen_extracted_agree cv HF target a pl steps t F). Qed.
+
+(** the translation assembled from the generated functions coincides with the model's wherever that exists *)
+Theorem C16_source_translate_agrees d target r :
+  (forall a, NoDup (map (mvid d) (metavars_in_order d a))) -> nodup_labels (map item_label d) = true ->
+  translate_raw false d target = Some r -> gen_translate_raw d target = Some r.
+Proof. exact (gen_translate_raw_agree d target r). Qed.
+
+(** the property, stated of the generated source *)
+Theorem C16_source_translate d target :
+  mm_verify d target = true -> in_fragment d target = true ->
+  exists g c p a pl steps sid,
+    gen_translate_raw d target = Some (g, c, p) /\
+    find_proof d target = Some (a, pl, steps) /\ sid_of false d target = Some sid /\
+    accepted_with d sid a g c p.
+Proof. exact (source_translate d target). Qed.
+Print Assumptions C16_source_translate.
+
+(** the generated code really computes: impreflex through the generated functions gives the shipped bytes *)
+Example C16_source_impreflex_bytes :
+  gen_translate_raw (d_impreflex steps_z) (LOther 5) =
+  Some ([], [137;0;137;0;5;30],
+        [137;0;137;0;137;0;5;28;5;28;29;0;137;0;29;0;137;0;5;5;29;1;29;0;5;137;0;29;0;137;0;13;26;3;2;1;0;
+         137;0;29;0;12;26;2;1;0;21;28;27;27;27;29;2;137;0;137;0;12;26;2;1;0;21;28;27;27;27;29;3;30]).
 Proof. vm_compute. reflexivity. Qed.
